@@ -582,7 +582,7 @@ func (m c03) Run(c *fw.Ctx) {
 		}
 		c.Exhaustive(fmt.Sprintf("Universe(L=%d,arity<=3) x all Delete/Erase (i,n) x all Slice windows in [-L,L]^2", L))
 	}
-	N := c.Pick(20000, 150000)
+	N := c.Pick(20000, 600000)
 	r := c.Rng
 	for it := 0; it < N; it++ {
 		c.NextOwn()
